@@ -6,7 +6,7 @@ import lib
 
 MANIFEST = {
  "category": "proof",
- "text": "Coq model K/PostProcess.v of Fork.postProcess / processStructOuts / handleOuts / moveOutFiles / moveOutDir / moveOutArrayDir / moveOutFile / copyOutSymlink, GetOutFilename and IsLegalUnixFilename over an abstract file system (path -> file | directory | link; rename of whole subtrees, mkdir -p, symlink). Theorems, for all types, values and file-system states, no size bound: C13_file_leaf_materialised_partial (a regular file or directory inside the pipestance whose destination is free is afterwards readable under outs/ at the derived path with exactly its nodes, the rewritten value names that location, the old location links to it, no error is flagged and nothing else changes but the directories on the way to the destination); the record keeps its shape at every level of move_val: C13_nonfile_values_unchanged, C13_file_leaf_stays_leaf (null / unchanged / a path string), C13_array_length_preserved, C13_map_keys_preserved (no key lost or invented), C13_struct_members_by_name, C13_top_level_keys_preserved; C13_null_stays_null, C13_missing_file_to_null; C13_derived_names_distinct and C13_map_entry_names_injective (the compiler's duplicate-name rejection makes the entries of one outs/ directory pairwise different). Tied to /repo on every run: the outs directory name, the legal-file-name rule and the bound of the link-following loop are regenerated from the Go AST; the real postProcess is run (verif export building a fork over a prepared directory, as TestPostProcess does) on generated output signatures (file, user file types, path, arrays incl. multi-dimensional, typed maps, structs, nesting, explicit out names, null / missing / empty / ill-typed values, symlinks relative, absolute, chained, cyclic, dangling, to outside, files outside the pipestance, array- and map-called top-level pipelines) and the rewritten _outs, the error flag and the resulting tree are compared with the extracted model (plus a kernel vm_compute sample); the compiler's accept/reject of structs with clashing out names is compared with names_distinct; the property is also read directly on the implementation (valid JSON, shape, other values unchanged, content readable under outs/ at the derived path and through the rewritten value).",
+ "text": "Coq model K/PostProcess.v of Fork.postProcess / processStructOuts / handleOuts / moveOutFiles / moveOutDir / moveOutArrayDir / moveOutFile / copyOutSymlink, GetOutFilename and IsLegalUnixFilename over an abstract file system (path -> file | directory | link; rename of whole subtrees, mkdir -p, symlink). Theorems, for all types, values and file-system states, no size bound: C13_file_leaf_materialised_partial (a regular file or directory inside the pipestance whose destination is free is afterwards readable under outs/ at the derived path with exactly its nodes, the rewritten value names that location, the old location links to it, no error is flagged and nothing else changes but the directories on the way to the destination); the record keeps its shape at every level of move_val: C13_nonfile_values_unchanged, C13_file_leaf_stays_leaf (null / unchanged / a path string), C13_array_length_preserved, C13_map_keys_preserved (no key lost or invented), C13_struct_members_by_name, C13_top_level_keys_preserved; C13_null_stays_null, C13_missing_file_to_null (nothing at its place under outs/ either), C13_interrupted_move_resumed (a file missing because an interrupted run already moved it to its place under outs/ is linked back and reported there); C13_derived_names_distinct and C13_map_entry_names_injective (the compiler's duplicate-name rejection makes the entries of one outs/ directory pairwise different). Tied to /repo on every run: the outs directory name, the legal-file-name rule and the bound of the link-following loop are regenerated from the Go AST; the real postProcess is run (verif export building a fork over a prepared directory, as TestPostProcess does) on generated output signatures (file, user file types, path, arrays incl. multi-dimensional, typed maps, structs, nesting, explicit out names, null / missing / empty / ill-typed values, symlinks relative, absolute, chained, cyclic, dangling, to outside, files outside the pipestance, array- and map-called top-level pipelines) and the rewritten _outs, the error flag and the resulting tree are compared with the extracted model (plus a kernel vm_compute sample); the compiler's accept/reject of structs with clashing out names is compared with names_distinct; the property is also read directly on the implementation (valid JSON, shape, other values unchanged, content readable under outs/ at the derived path and through the rewritten value).",
  "note": "Partial with respect to the whole record: the per-leaf theorem is not composed over the traversal into one statement about every leaf of a record at once (its frame conjuncts are what that composition needs; the composition additionally needs pairwise disjoint sources), and the shape theorems are stated level by level rather than as one recursive relation. Trusted: Coq kernel; extraction (ExtrOcamlBasic) cross-checked in-kernel on a sample; extractconsts; the harness' tree dump and JSON canonicaliser. Abstracted: the POSIX file system (no permissions, cross-device renames, I/O errors; no symlinked directory on a looked-up path), the printed summary (printOutParam) is not modelled, typed-map forks of a map-called top-level pipeline are visited in key order (Go: random order). Outside the modelled fragment (flag unm, counted): relative or unclean path strings, a non-directory in the way of an out directory (stale outs/).",
  "technique": "Coq proof (frame reasoning over an abstract file system with subtree rename, list inductions over the traversal combinators) + differential correspondence on generated trees + implementation-side oracle",
 }
